@@ -35,12 +35,12 @@ EPSABS = 1.49e-8             # scipy.integrate.quad's default absolute tolerance
 # tolerance of a cell = C * EPSREL * S + 4 * EPSABS * nterms (+ noise term), S = sum of |eta| at the nterms corner times
 # of the cell: the library forms cells as second differences of eta, so its absolute error scales with |eta|, not with
 # the cell.  Constants fixed after measuring the whole quick and thorough alphabets on the unchanged tree (see run()).
-C_SMOOTH = 50.0              # measured max |dev| / (EPSREL S): 0.9  (a quad call stopping right at its tolerance)
+C_SMOOTH = 75.0              # measured max |dev| / (EPSREL S): 2.1  (a quad call stopping right at its tolerance)
 C_SUB = 1200.0               # power laws with zeta < 1 at T > 0: QUADPACK's extrapolation at the w^(zeta-1) end point,
                              # fed with a kernel that is evaluated with cancellation at small w, reaches 1e-7..2e-6 only
 C_NOISE = 30.0               # same regime, in addition C_NOISE * EPSREL * T * 2 alpha wc^(1-zeta) per eta term: the
                              # cancellation leaves an ABSOLUTE error ~ eps_machine * T * J(w) / w^3 (visible for small dt)
-C_POINT = 50.0               # C(tau) against own quadrature, scale |C(0)|
+C_POINT = 75.0               # C(tau) against own quadrature, scale |C(0)|
 TOL_EXACT = 1e-11            # relations that hold bit-for-bit up to rounding (C(-tau) = conj C(tau))
 ACTIVE = 30.0                # a cell is non-trivial iff |cell| >= ACTIVE * tolerance (a factor-2 bug is a >= 30 tol effect)
 
